@@ -88,14 +88,15 @@ type vfH struct {
 	nparked   int
 
 	// programmable results
-	errFor     func(handler, method, filepath string) error
-	realPath   func(p string) (string, error)
-	readlink   func(p string) (string, error)
-	lookupUser func(string) string
-	statvfs    *sftp.StatVFS
-	listEOF    string
-	listShort  int
-	log        []string // ordered event log: "start WriteAt obj#3", "close obj#3", ...
+	errFor       func(handler, method, filepath string) error
+	realPath     func(p string) (string, error)
+	readlink     func(p string) (string, error)
+	lookupUser   func(string) string
+	statvfs      *sftp.StatVFS
+	listEOF      string
+	listShort    int
+	listOverride map[string][]os.FileInfo // directory path -> entries to list verbatim
+	log          []string                 // ordered event log: "start WriteAt obj#3", "close obj#3", ...
 }
 
 func newVfH() *vfH {
@@ -524,6 +525,11 @@ func (h *vfH) list(handler string, r *sftp.Request) (sftp.ListerAt, error) {
 		h.mu.Unlock()
 		sort.Strings(names)
 		o := h.newObj("lister", r.Filepath, d, r)
+		if ov, ok := h.listOverride[r.Filepath]; ok {
+			o.list = append(o.list, ov...)
+			c.Obj = o
+			return vfListerObj{o}, nil
+		}
 		for _, k := range names {
 			if f := h.lookup(k); f != nil {
 				o.list = append(o.list, h.info(path.Base(k), f))
